@@ -107,7 +107,7 @@ def compile_prolog_from_file(path, options=CompilerContext):
 @contextlib.contextmanager
 def _open_input_file(fn):
     if fn == '-':
-        inf = StdinStream()
+        inf = StdinStream(encoding='utf8')
     else:
         inf = FileStream(fn, encoding='utf8')
     try:
